@@ -25,7 +25,7 @@
 (***************************************************************************)
 EXTENDS Integers, Sequences, FiniteSets, TLC
 
-CONSTANTS Classes, Outs, Durs, Rets, Advs, Decs, BFaults, Ras, Modes,
+CONSTANTS Classes, Outs, Durs, CDurs, EDurs, Rets, Advs, Decs, BFaults, Ras, Modes,
           NCalls,       \* policy calls per behaviour
           Gaps          \* clock advances between calls
 
@@ -49,7 +49,7 @@ EvRec(op, k, bev, state, at) ==
     [e |-> "rec", op |-> op, k |-> k, ev |-> bev, state |-> state, at |-> at]
 EvBEmit(name, k, state, op, t) ==
     [e |-> "emit", name |-> name, n |-> 0, sleep |-> 0, k |-> k, err |-> FALSE, stop |-> "-",
-     cause |-> "-", ra |-> None, op |-> op, t |-> t, state |-> state]
+     cause |-> "-", ra |-> None, op |-> op, dur |-> 0, t |-> t, state |-> state]
 EvPrePoll(ans) == [e |-> "prepoll", ans |-> ans]
 EvPDeliver(mode, v) == [e |-> "pdeliver", mode |-> mode, v |-> v]
 
@@ -170,7 +170,7 @@ RunRetry(pc, p) ==
 
 BClassify(pc, p) ==
     IF p.ph = "run" /\ pc.retry /\ p.s.pc = "deliver" /\ NeedsBClassify(p.mode, p.s) THEN
-        { <<L!EvClassify(p.s.lid, p.s.lk, p.s.lra, p.s.now), [p EXCEPT !.ph = "settle"]>> }
+        { <<L!EvClassify(p.s.lid, p.s.lk, p.s.lra, 0, p.s.now), [p EXCEPT !.ph = "settle"]>> }
     ELSE {}
 
 Record(pc, p, op, k, view) ==
